@@ -22,6 +22,10 @@ def runs(tier):
     # path coverage: every program of length <= 3 (no merging) on 2-D roots and their depth-1 views
     c2 = base_constants(); c2.update({"MaxD": 2, "MaxExt": 2, "Merge": False, "MaxProg": 2, "MaxN": 4})
     r.append(("c02_paths", c2, None))
+    # four-dimensional roots under every composition of up to three dimension permutations (the middle dimensions exchanged ...)
+    cp = base_constants(); cp.update({"MaxD": 4, "MaxExt": 2, "MaxDepth": 3, "MaxProg": 1, "MaxN": 16, "Kinds": {"elems", "outer"},
+                                      "OpNames": {"rotated", "unrotated", "transposed"}, "Offsets": vlib.Sub("OffsetsOne")})
+    r.append(("c02_d4_perm", cp, None))
     # iterators re-seated between a view and a twin view of the same root (one more operation away)
     ct = base_constants(); ct.update({"MaxD": 2, "MaxExt": 3, "MaxDepth": 0, "TwinOps": TWIN_OPS, "MaxProg": 2, "Offsets": vlib.Sub("OffsetsOne")})
     r.append(("c02_twin", ct, None))
@@ -65,6 +69,10 @@ def compare(exp, o):
     n = exp["n"]
     p1, p2 = exp["pos"]
     bad = []
+    # begin()/end() delimit exactly size() positions -- with the size the library itself reports, so that this is also
+    # asked of views without elements (3x0), whose sizes the specification does not prescribe for owning arrays
+    if exp["kind"] == "outer" and "size" in o and o.get("end_minus_begin") != o.get("size"):
+        bad.append(("end-begin_vs_size()", o.get("size"), o.get("end_minus_begin")))
     if exp["empty"]:
         # zero-size corner (the library may collapse sizes): only begin()==end() for the flat range
         if exp["kind"] == "elems" and o.get("n") != 0:
@@ -96,6 +104,7 @@ def compare(exp, o):
     chk("const_equal", 1, o.get("const_eq"))
     if exp["kind"] == "elems" and n > 0:
         pp = p1 if exp["rng"][0] == 0 else 0
+        chk("elements()[k]_all", exp["firsts"], o.get("at_all"))
         chk("front", exp["firsts"][0], o.get("front"))
         chk("back", exp["firsts"][-1], o.get("back"))
         if pp < n:
